@@ -48,7 +48,7 @@ func genStyle(t *rapid.T) x.Style {
 	s.Cmt = rapid.IntRange(0, 4).Draw(t, "cmt") == 4
 	s.Heredoc = rapid.IntRange(0, 2).Draw(t, "heredoc")
 	s.Legacy = rapid.Bool().Draw(t, "legacy")
-	s.Esc = rapid.IntRange(0, 39).Draw(t, "esc") == 39
+	s.Esc = rapid.IntRange(0, 99).Draw(t, "esc") == 99
 	s.NumSpell = rapid.Bool().Draw(t, "numspell")
 	s.Alt = rapid.Bool().Draw(t, "alt")
 	s.Seed = rapid.Uint64Range(1, 1<<62).Draw(t, "seed")
